@@ -219,17 +219,38 @@ def _call(args):
             'results': [], 'configs': 0}
 
 
-def run_tasks(modname, fname, tasks, workers=None, report=None, prefix=False):
-  """run `modname.fname(task)` for every task in a pool of fresh processes"""
+def _run_one(args):
+  """one task in its own interpreter (robust against hard crashes and hangs)"""
+  import subprocess
+  import tempfile
+  modname, fname, task, timeout = args
+  with tempfile.TemporaryDirectory(prefix='vp_task_') as d:
+    tin, tout = os.path.join(d, 'in.json'), os.path.join(d, 'out.json')
+    with open(tin, 'w') as f:
+      json.dump(dict(mod=modname, fn=fname, task=task), f)
+    try:
+      p = subprocess.run([sys.executable, '-m', 'vp.worker', tin, tout], capture_output=True, text=True, timeout=timeout,
+                         env=dict(os.environ))
+    except subprocess.TimeoutExpired:
+      return {'errors': [f'{task!r}: task exceeded {timeout}s and was stopped (undecided)'], 'results': [], 'configs': 0}
+    try:
+      with open(tout) as f:
+        return json.load(f)
+    except Exception:
+      return {'errors': [f'{task!r}: worker died (exit {p.returncode}): {p.stderr[-1500:]}'], 'results': [], 'configs': 0}
+
+
+def run_tasks(modname, fname, tasks, workers=None, report=None, prefix=False, timeout=None):
+  """run `modname.fname(task)` for every task, each in a fresh process, `workers` at a time"""
   workers = workers or min(int(os.environ.get('VP_WORKERS', '16')), max(1, len(tasks)))
+  timeout = timeout or int(os.environ.get('VP_TASK_TIMEOUT', '1500'))
   outs = []
-  if workers <= 1 or len(tasks) <= 1 or os.environ.get('VP_SERIAL'):
+  if os.environ.get('VP_SERIAL'):
     for t in tasks:
       outs.append(_call((modname, fname, t)))
   else:
-    ctx = mp.get_context('spawn')
-    with cf.ProcessPoolExecutor(max_workers=workers, mp_context=ctx) as ex:
-      outs = list(ex.map(_call, [(modname, fname, t) for t in tasks], chunksize=1))
+    with cf.ThreadPoolExecutor(max_workers=workers) as ex:
+      outs = list(ex.map(_run_one, [(modname, fname, t, timeout) for t in tasks]))
   if report is not None:
     for o in outs:
       report.absorb(o)
